@@ -60,7 +60,10 @@ def _run(ctx, ncases, rec):
       acc.evals += 1
       ti = d.tree_island.numpy()
       ni = d.nisland.numpy()
-      ref = np.asarray(mjd.tree_island[: mjm.ntree]) if hasattr(mjd, "tree_island") else None
+      ref = np.asarray(mjd.tree_island[: mjm.ntree]).copy() if hasattr(mjd, "tree_island") else None
+      if ref is not None:
+        # MuJoCo leaves tree_island unwritten when it finds no island (stale memory, e.g. 21906): entries outside [0, nisland) mean "none"
+        ref[(ref < 0) | (ref >= int(mjd.nisland))] = -1
       for w in range(nworld):
         got = ti[w, : mjm.ntree]
         if ref is not None:
